@@ -7,6 +7,7 @@ func init() {
 	vHarnesses["VerifC07Obj"] = VerifC07Obj
 	vHarnesses["VerifC07Set"] = VerifC07Set
 	vHarnesses["VerifC07Merge"] = VerifC07Merge
+	vHarnesses["VerifC07MergeNulls"] = VerifC07MergeNulls
 	vHarnesses["VerifC07Canary"] = VerifC07Canary
 	vHarnesses["VerifC07Keyed"] = VerifC07Keyed
 }
@@ -255,6 +256,61 @@ func VerifC07Merge() {
 	vAssert((len(d) == 0) == refEq(a, b, modeList, 0), "hunks exist for equal documents / none for different ones")
 	vLeaveOneOut(a, b, d, []Option{MERGE})
 	vCover("c07.merge")
+}
+
+// VerifC07MergeNulls: merge diffs of documents in which a holds null members that b keeps,
+// replaces or drops (b has a null only where a has the same one, so the diff is expressible).
+func VerifC07MergeNulls() {
+	oa, ob := jsonObject{}, jsonObject{}
+	for _, k := range []string{"a", "b", "c"} {
+		switch vChoice(3) {
+		case 0: // absent in a
+			if vChoice(2) == 1 {
+				ob[k] = vNum()
+			}
+		case 1: // a number in a
+			oa[k] = vNum()
+			switch vChoice(3) {
+			case 0:
+			case 1:
+				ob[k] = oa[k]
+			default:
+				ob[k] = vNum()
+			}
+		default: // null in a
+			oa[k] = jsonNull(nil)
+			switch vChoice(3) {
+			case 0:
+			case 1:
+				ob[k] = jsonNull(nil)
+			default:
+				ob[k] = vNum()
+			}
+		}
+	}
+	var a, b JsonNode = oa, ob
+	if vChoice(2) == 1 {
+		a, b = jsonObject{"x": oa, "y": vNum()}, jsonObject{"x": ob}
+	}
+	if vKnown("hash.alias") {
+		vAssumeNoHashAlias(a, b)
+	}
+	d := a.Diff(b, MERGE)
+	vObserve("diff", d.Render())
+	for _, h := range d {
+		vAssert(h.Metadata.Merge, "merge-mode hunk without merge metadata")
+		vAssert(len(h.Remove) == 0 && len(h.Add) == 1, "merge hunk must carry exactly one added value and nothing removed")
+		va, vb := refGet(a, h.Path), refGet(b, h.Path)
+		vAssert(refEq(h.Add[0], vb, modeList, 0), "merge hunk does not carry b's value (void for an absent key)")
+		vAssert(!refEq(va, vb, modeList, 0), "merge hunk for a sub-document on which a and b agree")
+	}
+	for i := range d {
+		for j := 0; j < i; j++ {
+			vAssert(!d[i].Path.JsonNode().Equals(d[j].Path.JsonNode()), "two merge hunks address the same path")
+		}
+	}
+	vAssert((len(d) == 0) == refEq(a, b, modeList, 0), "hunks exist for equal documents / none for different ones")
+	vCover("c07.mergenulls")
 }
 
 // VerifC07Canary must be violated.
